@@ -76,6 +76,7 @@ SYMLINKS = {
     "secret/back": "../model",
     "alt/a.bin": "../secret/s.bin",
     "alt/sub/b.bin": "../../secret/sub/t.bin",
+    "alt/sublink": "../model/sub",  # a symlinked directory: "alt/sublink/.." is the model directory, not "alt"
 }
 DIRS = ["model/sub/deeper", "model/empty", "model_evil", "modelx", "secret/sub", "subx", "out", "alt/sub", "alt2/sub"]
 COMPONENTS = [
@@ -97,6 +98,7 @@ BASES = [
     ("root", "{ROOT}/model/"),
     ("root", "model//"),
     ("root", "secret/back"),
+    ("root", "alt/sublink/.."),
 ]
 TENSOR_ENTRIES = ["numpy", "asarray", "tobytes", "tofile_bytesio", "tofile_real", "tofile_nocfr", "load_to_model", "convert_from_external", "resave", "size0_numpy", "size0_tofile"]
 MODEL_PATHS = [
@@ -110,6 +112,10 @@ MODEL_PATHS = [
     ("model", "PATH:m.onnx"),
     ("root", "PATH:model/m.onnx"),
     ("model", "sub/../m.onnx"),
+    ("root", "alt/sublink/../m.onnx"),
+    ("root", "{ROOT}/alt/sublink/../m.onnx"),
+    ("alt", "sublink/../m.onnx"),
+    ("root", "./alt/sublink/../m.onnx"),
 ]
 LOAD_ENTRIES = ["load_numpy", "load_tobytes", "load_tofile"]
 # where in the model file the external tensor sits ("all tensors of the model" get the base directory)
